@@ -1,5 +1,7 @@
 import PV.Model.Format
 import PV.Lemmas.Format
+import PV.Model.Pool
+import PV.Lemmas.Pool
 /-
 C20 — helper routines never write beyond the space they reserved (the number formatters used by
 the output streams).  `PV.Gen.kBytes*` are ToStringBuf<T>::kBytes as the compiler sees them today.
@@ -7,6 +9,10 @@ The other C20 obligations proved elsewhere: probing never diverges / no table-fu
 (C13 history_refines), the reader and wrap_lines never diverge and index inside the buffer
 (C02, C07 totality), Murmur reads in bounds (C14 reads_in_bounds), b64filter's record count is
 never the end marker and back() is guarded (C08), shard count 0 is rejected (C06 check).
+Second part: `util::Pool` (PV.Pool), the bump allocator that holds cache's answers and the strings of MutableVocab,
+substitute and idf: for EVERY history of Allocate / Continue calls the allocations lie inside malloc'ed pages, never share a
+byte, earlier ones never move, Continue's memcpy stays inside both pages and copies exactly the old bytes, and the shift that
+sizes the next page cannot reach 64.  Tie: harness op pool.run (real Pool, pattern-filled allocations, ASan) vs pvdriver pool.run.
 -/
 namespace PV.Props.C20
 open PV.Format
@@ -83,5 +89,52 @@ theorem kBytes_le_max :
 example : floatTouched true 17 (-5) = 26 := by decide
 example : (u64 18446744073709551615).2 = 20 := by decide
 example : (i64 (-9223372036854775808)).2 = 20 := by decide
+
+/-! ### util::Pool: every history of Allocate / Continue -/
+section pool
+open PV.Pool
+
+/-- every live allocation lies inside one malloc'ed page, for all of its bytes -/
+theorem pool_allocations_in_page (ops : List Op) (h : Hist) (hr : Hist.init.run ops = some h) :
+    ∀ l ∈ h.live, inPage h.pool l.addr l.size :=
+  PV.Lemmas.Pool.run_live_in_page ops h hr
+
+/-- no two live allocations share a byte (a stored answer or word is never overwritten by a later one) -/
+theorem pool_allocations_disjoint (ops : List Op) (h : Hist) (hr : Hist.init.run ops = some h) :
+    h.live.Pairwise disjoint :=
+  PV.Lemmas.Pool.run_live_disjoint ops h hr
+
+/-- earlier allocations never move or change size, pages never change size; Allocate moves nothing at all -/
+theorem pool_earlier_allocations_stay (h h' : Hist) (o : Op) (hs : h.step o = some h') :
+    h.live.dropLast <+: h'.live ∧ h.pool.pages <+: h'.pool.pages ∧ (∀ n, o = .alloc n → h.live <+: h'.live) :=
+  PV.Lemmas.Pool.step_keeps_earlier h h' o hs
+
+/-- every memcpy of Continue reads inside the old page and writes inside the new, different, page -/
+theorem pool_continue_copies_in_bounds (ops : List Op) (h : Hist) (hr : Hist.init.run ops = some h) :
+    ∀ c ∈ h.copies, inPage h.pool c.src c.len ∧ inPage h.pool c.dst c.len ∧ c.src.page < c.dst.page :=
+  PV.Lemmas.Pool.run_copies_in_bounds ops h hr
+
+/-- Continue on the most recent allocation never trips the contract test, and when it moves it copies exactly the old bytes -/
+theorem pool_continue_total_and_copies_old (ops : List Op) (h : Hist) (hr : Hist.init.run ops = some h) (l : Live) (d : Int)
+    (hl : h.live.getLast? = some l) (hd : 0 ≤ (l.size : Int) + d) :
+    ∃ h', h.step (.cont d) = some h' ∧
+      (h'.copies = h.copies ∨ ∃ l', h'.live.getLast? = some l' ∧ h'.copies = h.copies ++ [⟨l.addr, l'.addr, l.size⟩]) := by
+  have hdef := PV.Lemmas.Pool.cont_defined ops h hr l d hl hd
+  cases hs : h.step (.cont d) with
+  | none => rw [hs] at hdef; cases hdef
+  | some h' => exact ⟨h', rfl, PV.Lemmas.Pool.cont_copy_is_old ops h h' hr l d hl hs⟩
+
+/-- page k has at least 32·2^k bytes; while the pages fit a 64-bit address space there are at most 59 of them, so the count in
+`32 << free_list_.size()` stays below 64 -/
+theorem pool_shift_count_small (ops : List Op) (h : Hist) (hr : Hist.init.run ops = some h) :
+    (∀ k (hk : k < h.pool.pages.length), 32 * 2 ^ k ≤ h.pool.pages[k]) ∧
+    (h.pool.pages.sum < 2 ^ 64 → h.pool.pages.length ≤ 59) :=
+  ⟨PV.Lemmas.Pool.run_page_sizes ops h hr, PV.Lemmas.Pool.shift_count_small ops h hr⟩
+
+-- non-vacuity: a history with an in-place Continue, a shrinking one, a moving one (copy of 100 bytes from page 2 to page 3) and four pages
+example : (Hist.init.run [.alloc 5, .alloc 0, .cont 3, .cont (-2), .alloc 100, .cont 40, .alloc 1]).map
+    (fun h => (h.pool, h.live.map (fun l => (l.addr.page, l.addr.off, l.size)), h.copies.map (fun c => (c.src.page, c.src.off, c.dst.page, c.len)))) =
+    some (⟨[32, 100, 140, 256], 1⟩, [(1, 0, 5), (1, 5, 1), (3, 0, 140), (4, 0, 1)], [(2, 0, 3, 100)]) := by rfl
+end pool
 
 end PV.Props.C20
